@@ -63,7 +63,63 @@ def concrete(ty, inst, alt=0):
         return [Neither(), {1, 2}, object(), 1j][(inst + 2 * alt) % 4]
     if ty == "array":
         return np.ndarray([1, 2], 1) if inst else np.ndarray(5, 0)
+    if ty in ("dynmap", "dynseq"):
+        # history replay: a small pool of run-time-created classes (every history starts from an empty memo)
+        key = (ty, alt % 3)
+        if key not in _DYN_POOL:
+            _DYN_POOL[key] = type(dynamic_instance(ty, 0))
+        return _DYN_POOL[key]({"a": inst} if ty == "dynmap" else [inst, 2])
     raise ValueError(ty)
+
+
+_DYN_POOL = {}
+
+
+_dyn_counter = [0]
+
+
+def dynamic_instance(ty, inst=0):
+    """An instance of a class created right now (Resolver!Birth): a Mapping class or a Sequence class."""
+    _dyn_counter[0] += 1
+    n = _dyn_counter[0]
+    if ty == "dynmap":
+        cls = type(f"DynMap{n}", (collections.abc.Mapping,), {
+            "__init__": lambda self, d: setattr(self, "_d", dict(d)),
+            "__getitem__": lambda self, k: self._d[k],
+            "__iter__": lambda self: iter(self._d),
+            "__len__": lambda self: len(self._d)})
+        return cls({"a": inst})
+    cls = type(f"DynSeq{n}", (collections.abc.Sequence,), {
+        "__init__": lambda self, d: setattr(self, "_l", list(d)),
+        "__getitem__": lambda self, i: self._l[i],
+        "__len__": lambda self: len(self._l)})
+    return cls([inst, 2])
+
+
+def lifetime_probe(rs, rounds=2, k=100):
+    """Resolver!Birth / GetType / Death / Birth at the freed address / GetType: classes that are created, classified and
+    garbage-collected must not bequeath their category to classes created later."""
+    import gc
+    bad, calls = [], 0
+    for rname, r in rs.items():
+        r.type_map.clear()
+        for _ in range(rounds):
+            for first, second in (("dynmap", "dynseq"), ("dynseq", "dynmap")):
+                objs = [dynamic_instance(first) for _ in range(k)]
+                for o in objs:
+                    r.get_type(o)
+                    calls += 1
+                del objs, o
+                gc.collect()
+                for j in range(k):
+                    v = dynamic_instance(second)
+                    got, want = r.get_type(v), truth(r, v)
+                    calls += 1
+                    if got != want and len(bad) < 10:
+                        bad.append({"resolver": rname, "value": type(v).__name__, "got": got, "fresh": want,
+                                    "history": f"{k} short-lived {first} classes classified and collected, then class #{j} of kind {second}"})
+                    del v
+    return bad, calls
 
 
 def resolvers():
@@ -188,6 +244,10 @@ def main():
         if got != want and len(report["probe_mismatches"]) < 20:
             diff = {k: (got.get(k), want.get(k)) for k in set(got) | set(want) if got.get(k) != want.get(k)}
             report["probe_mismatches"].append({"after_history": h, "probe": [ty, inst, alt], "differs": diff})
+    # (3) classes created and garbage-collected at run time
+    bad, calls = lifetime_probe(rs)
+    report["lifetime_mismatches"] = bad
+    report["lifetime_calls"] = calls
     print("REPORT " + json.dumps(report))
 
 
